@@ -151,6 +151,8 @@ mod strings;
 mod types;
 
 pub mod attributes;
+#[cfg(feature = "verif")]
+pub mod verif;
 pub mod error;
 pub mod methods;
 
